@@ -10,6 +10,7 @@ import (
 	"fmt"
 	"io/ioutil"
 	"os"
+	"strings"
 
 	"verif/mc/checks"
 	"verif/mc/core"
@@ -79,6 +80,74 @@ func main() {
 			fmt.Sscan(os.Args[4], &seed)
 		}
 		checks.RaceMain(os.Args[2], rounds, seed)
+	case "hunt":
+		// debugging aid: vmc hunt <profile> <cfg index> <depth> <substring>: enumerate histories in
+		// one process until a violation whose signature contains the substring shows up
+		checks.BuildProfiles("quick")
+		core.InstallClock()
+		p := checks.Profiles[os.Args[2]]
+		var ci, depth int
+		fmt.Sscan(os.Args[3], &ci)
+		fmt.Sscan(os.Args[4], &depth)
+		cfg := p.Cfgs[ci]
+		alpha := p.Ops(cfg)
+		count := 0
+		var rec func(seq []int) bool
+		rec = func(seq []int) bool {
+			if len(seq) > 0 {
+				count++
+				lf := eng.RunLeaf(p, cfg, alpha, seq)
+				for _, v := range lf.Viol {
+					if strings.Contains(strings.Join(v.Atoms, ","), os.Args[5]) {
+						fmt.Println("found after", count, "leaves:", seq, v.Atoms)
+						for _, o := range v.Ops {
+							fmt.Println("  ", o)
+						}
+						fmt.Println(v.Detail)
+						lf2 := eng.RunLeaf(p, cfg, alpha, seq)
+						fmt.Println("immediately again:", len(lf2.Viol))
+						return true
+					}
+				}
+				if lf.NoExpand {
+					return false
+				}
+			}
+			if len(seq) == depth {
+				return false
+			}
+			for j := range alpha {
+				if rec(append(append([]int(nil), seq...), j)) {
+					return true
+				}
+			}
+			return false
+		}
+		rec(nil)
+		fmt.Println("leaves:", count)
+		os.RemoveAll(core.ScratchRoot)
+	case "loop":
+		// debugging aid: vmc loop <replay file> <n>: run the history n times in one process
+		b, _ := ioutil.ReadFile(os.Args[2])
+		var rp eng.Replay
+		json.Unmarshal(b, &rp)
+		n := 100
+		fmt.Sscan(os.Args[3], &n)
+		checks.BuildProfiles("quick")
+		core.InstallClock()
+		p := checks.Profiles[rp.Profile]
+		bad := 0
+		for i := 0; i < n; i++ {
+			lf := eng.RunOps(p, rp.Violation.Cfg, rp.Violation.Ops)
+			if len(lf.Viol) > 0 {
+				bad++
+				if bad == 1 {
+					fmt.Println("first failure at iteration", i, lf.Viol[0].Detail)
+				}
+			}
+		}
+		fmt.Println("failures:", bad, "of", n)
+		os.RemoveAll(core.ScratchRoot)
 	case "replay":
 		if len(os.Args) < 3 {
 			usage()
